@@ -77,7 +77,11 @@ CHECKS.update({
         text="C18_statistics_agree / C18_attribution: reaction count = input rows, balanced count = #input-balanced, confident count = "
         "#solved by MCS, mcs_applied = #unsolved before the MCS stage, solved <= applied, and (under the two monitored laws) no solved "
         "count below the rows attributed to the method — per row and summed over any batch partition; model statistics compared with "
-        "the real stats dict of every traced batch.",
+        "the real stats dict of every traced batch. Dictionary level: merge_stats itself is modelled (mergeStats over ordered key/value "
+        "lists) together with the key set each batch writes (a batch without a valid row reports reaction_cnt only); C18_merge_adds "
+        "(value-wise sum for ANY two dictionaries), C18_merge_keys (key union), C18_dict_agrees (the caller's dictionary after any "
+        "batch size holds the named counts under every key), C18_dict_keys; every real merge_stats call of every traced run and "
+        "seeded dictionary pairs are compared with the Lean function as ordered pairs.",
         note=ROWNOTE + "laws WaterCarbonLaw and RbLaw are hypotheses of C18_attribution only, monitored on every traced row.",
         technique="Lean 4 proof (per-row lemmas lifted to sums) + differential correspondence of statistics",
         ref="§5 C18"),
